@@ -5,6 +5,7 @@
 
 use super::{Follow, Matcher, MatcherIO, WalkEntry, WalkError};
 use std::error::Error;
+use std::io::{self, stderr, Write};
 use std::path::Path;
 use uucore::fs::FileInformation;
 
@@ -36,11 +37,21 @@ impl SameFileMatcher {
 }
 
 impl Matcher for SameFileMatcher {
-    fn matches(&self, file_info: &WalkEntry, _matcher_io: &mut MatcherIO) -> bool {
-        if let Ok(info) = get_file_info(file_info.path(), file_info.follow()) {
-            info == self.info
-        } else {
-            false
+    fn matches(&self, file_info: &WalkEntry, matcher_io: &mut MatcherIO) -> bool {
+        match get_file_info(file_info.path(), file_info.follow()) {
+            Ok(info) => info == self.info,
+            Err(err) => {
+                // The entry could not be examined: it is not presented as a
+                // different file without a word.
+                let _ = writeln!(
+                    &mut stderr(),
+                    "Error: {}: {}",
+                    file_info.path().display(),
+                    io::Error::from(&err)
+                );
+                matcher_io.set_exit_code(1);
+                false
+            }
         }
     }
 }
